@@ -162,3 +162,34 @@ Theorem C14_tracker_from_source : forall st o,
   Proofs.TrackerIRTie.run_generated st o = Some (Model.Tracker.tstep st o).
 Proof. exact Proofs.TrackerIRTie.tracker_from_source. Qed.
 Print Assumptions C14_tracker_from_source.
+
+(* ---------- what reaches the coalescer, from the source ----------
+   Gen/AuditProg.v is REGENERATED on every run from processors/auditd/reassembler_callback.go; Model/AuditIR.v
+   interprets it with aucoalesce.CoalesceMessages as the oracle [coalesce].  For EVERY group g that
+   ReassemblyComplete receives the oracle is asked about g ITSELF — the same records in the same order; nothing
+   is filtered, sorted or rebuilt between the callback's parameter and CoalesceMessages — and the event it
+   returns is the one that (after the After filter and ResolveIDs) is handed to the correlator. *)
+From AM Require Model.AuditProc Model.AuditIR Gen.AuditProg Proofs.AuditIRTie.
+Theorem C14_group_unchanged_from_source :
+  forall (line msg event cerr login AS : Type) (is_empty : line -> bool) (parse : line -> option msg)
+         (coalesce : list msg -> option event) (old : event -> bool)
+         (audit : AS -> event -> AS * option cerr) (rlogin : AS -> login -> AS * option cerr)
+         (csess clogins : AS -> AuditIR.tmv -> AS) (dur : BinNums.Z -> nat)
+         (p : AuditProc.pst line msg event cerr AS) (g : list msg),
+  AuditIR.complete_gen line msg event cerr login AS is_empty parse coalesce old audit rlogin csess clogins dur
+                       AuditProg.gen_ReassemblyComplete p g =
+  Some (AuditIR.on_cb line msg event cerr AS (fun c0 =>
+          let c := AuditProc.note_group msg event cerr AS g c0 in
+          match coalesce g with
+          | None => AuditProc.send msg event cerr AS (AuditProc.ECoalesce msg cerr g) c
+          | Some ev =>
+              if old ev then c else
+              let '(a, r) := audit (AuditProc.cb_as msg event cerr AS c0) ev in
+              let c' := AuditProc.note_handed msg event cerr AS a ev c in
+              match r with
+              | None => c'
+              | Some x => AuditProc.send msg event cerr AS (AuditProc.EAudit msg cerr g x) c'
+              end
+          end) p).
+Proof. exact AuditIRTie.coalesce_gets_group_unchanged. Qed.
+Print Assumptions C14_group_unchanged_from_source.
